@@ -149,7 +149,7 @@ pub fn fmt_value<S: GraphSnapshot>(snap: &S, v: &Value) -> String {
         Value::List(xs) => {
             let mut es: Vec<String> = xs.iter().map(|x| fmt_value(snap, x)).collect();
             es.sort();
-            format!("[{}]", es.join("/"))
+            format!("[{}]", es.join("&"))
         }
         Value::Path(p) => format!(
             "P{}",
